@@ -26,7 +26,7 @@ Kinds(F) == UNION {f[4] : f \in F}
 ReorderFails(st) ==
     UNION {LET r == st.reorder[k]
                a == st.arrays[r.a + 1]
-               b == st.arrays_after[r.a + 1]
+               b == st.arrays_reordered[r.a + 1]
            IN (IF ~IsPermutation(r.indices, NP(a)) THEN {"not-a-permutation"} ELSE {}) \cup
               (IF ~SameBag(RowsOf(a), RowsOf(b)) THEN {"particles-changed"} ELSE {}) \cup
               (IF ~r.together THEN {"strided-values-split"} ELSE {}) \cup
